@@ -3,7 +3,7 @@
    indentation) with its comment leader, whatever the line length.  The guarded-site table theorem is in
    dyn/C16_tables.v (regenerated from /repo on every run). *)
 From Coq Require Import List NArith ZArith Bool Arith String.
-From Shroud Require Import Base.Ustr Model.Text Model.Splicer Proof.Text Proof.Splicer.
+From Shroud Require Import Base.Ustr Model.Text Model.Splicer Proof.Text Proof.Splicer Proof.CommentsOnly.
 Import ListNotations.
 
 Theorem C16_comment_line_stays_one_comment_line : forall p s, verbatim_ok s = true ->
@@ -15,6 +15,38 @@ Theorem C16_comment_lines_do_not_move_indentation : forall p body i, forallb ver
   write_lines_from p i (map OStr body) = Ok (map (fun s => ind (with_indent p i) 0 ++ s) body, i).
 Proof. exact write_lines_verbatim. Qed.
 Print Assumptions C16_comment_lines_do_not_move_indentation.
+
+(* a block of comment lines (what doxygen / debug / show_splicer_comments add) inserted ANYWHERE in the line list of a file
+   changes nothing but itself: the lines before and after it are rendered exactly as without the block — same text, same
+   indentation, same final indentation — for every line list, line length and indentation unit *)
+Theorem C16_comment_block_changes_only_itself : forall p a cs b i la ia lb ib,
+  forallb verbatim_ok cs = true ->
+  write_lines_from p i a = Ok (la, ia) -> write_lines_from p ia b = Ok (lb, ib) ->
+  write_lines_from p i (a ++ b) = Ok (la ++ lb, ib) /\
+  write_lines_from p i (a ++ map OStr cs ++ b) = Ok (la ++ comment_block p ia cs ++ lb, ib).
+Proof. exact comments_only. Qed.
+Print Assumptions C16_comment_block_changes_only_itself.
+
+(* ... so erasing the block's own lines from the output with the option on gives the output with the option off *)
+Theorem C16_erasing_the_block_gives_the_other_output : forall p a cs b i la ia lb ib,
+  forallb verbatim_ok cs = true ->
+  write_lines_from p i a = Ok (la, ia) -> write_lines_from p ia b = Ok (lb, ib) ->
+  exists out, write_lines_from p i (a ++ map OStr cs ++ b) = Ok (out, ib) /\
+              firstn (List.length la) out = la /\ skipn (List.length la + List.length cs) out = lb /\
+              write_lines_from p i (a ++ b) = Ok (firstn (List.length la) out ++ skipn (List.length la + List.length cs) out, ib).
+Proof. exact comments_only_erase. Qed.
+Print Assumptions C16_erasing_the_block_gives_the_other_output.
+
+Example C16_comment_block_example :
+  let p := {| linelen := 40; indent := 1; spaces := cp "  "%string; cont := [] |} in
+  let a := [OStr (cp "int f(int a)"%string); OStr (cp "{+"%string)] in
+  let b := [OStr (cp "return a;"%string); OStr (cp "-}"%string)] in
+  let cs := [cp "// Function:  int f"%string; cp "// Argument:  int a +value"%string] in
+  forallb verbatim_ok cs = true /\
+  write_lines_from p 1 (a ++ b) = Ok (map cp ["  int f(int a)"; "  {"; "    return a;"; "  }"]%string, 1%Z) /\
+  write_lines_from p 1 (a ++ map OStr cs ++ b) =
+    Ok (map cp ["  int f(int a)"; "  {"; "    // Function:  int f"; "    // Argument:  int a +value"; "    return a;"; "  }"]%string, 1%Z).
+Proof. exact comments_only_example. Qed.
 
 Example C16_example : verbatim_ok (cp "// Argument:  int a +value"%string) = true /\ verbatim_ok (cp "! Function:  void f"%string) = true.
 Proof. split; reflexivity. Qed.
